@@ -377,7 +377,8 @@ def run_book(ctx, bi):
 def run_tall(ctx):
     """the folds over areas of tens of thousands of rows, handed to the generated class's own fold functions (the cell matrix of an area
     is a list of rows): the right value, and a time that grows with the size of the area, not with its square.  Verdict by growth
-    between two sizes (linear 2x, quadratic 4x) on a time that is long in absolute terms; slowness alone is inconclusive."""
+    between two sizes (linear 2x, quadratic 4x) on a time that is long in absolute terms; slowness alone is inconclusive.  The time is the
+    CPU time of this process (time.process_time), which a loaded machine stretches far less than the wall clock."""
     import time
     from .. import pipeline
     r, rng = ctx.r, ctx.rng
@@ -391,10 +392,10 @@ def run_tall(ctx):
     for n in (n1, n2):
         rows = [[i % 97, 'x' if i % 5 == 0 else i % 3] for i in range(n)]
         want_sum = sum(i % 97 for i in range(n)) + sum(i % 3 for i in range(n) if i % 5)
-        t0 = time.perf_counter()
+        t0 = time.process_time()
         flat = pipeline.guarded(lambda: inst._flatten_list(rows), 'evaluate')
         got = pipeline.guarded(lambda: inst._sum(inst._flatten_list([rows])), 'evaluate')
-        times[n] = time.perf_counter() - t0
+        times[n] = time.process_time() - t0
         r.ev(2)
         r.count('tall_area_folds')
         r.nt(('tall', n))
